@@ -281,3 +281,44 @@ def catalogue_scene(r, words):
                 break
     k, n = r.randint(0, 7), r.randint(0, 3)
     return "\n" * n + "\n".join(" " * k + "".join(x).rstrip() for x in rows)
+
+
+def comb_grid(r):
+    """a bus with taps: a horizontal run with a lead-in and junctions, from which bars go up and / or down; grouping
+    its cells takes several passes of a greedy merge (each tap is a group of its own until the bus reaches it)"""
+    taps, lead, pitch = r.randint(1, 8), r.randint(0, 4), r.choice([1, 2, 2, 3])
+    up, down = r.randint(0, 3), r.randint(0, 3)
+    if up == 0 and down == 0:
+        up = 1
+    width = lead + taps * pitch + r.randint(0, 2)
+    bus = ["-"] * width
+    cols = [lead + i * pitch + (pitch - 1) for i in range(taps)]
+    for c in cols:
+        bus[c] = "+"
+    rows = []
+    for i in range(up):
+        rows.append("".join("|" if x in cols and r.random() < 0.9 else " " for x in range(width)))
+    rows.append("".join(bus))
+    for i in range(down):
+        rows.append("".join("|" if x in cols and r.random() < 0.9 else " " for x in range(width)))
+    return "\n".join(x.rstrip() for x in rows)
+
+
+def walk_grid(r, wmax=14, hmax=8):
+    """one or two long thin paths of - | + drawn by a random walk that turns at '+': chains whose cells are met in
+    an order unrelated to their connection"""
+    W, H = r.randint(4, wmax), r.randint(3, hmax)
+    g = [[" "] * W for _ in range(H)]
+    for _path in range(r.randint(1, 2)):
+        x, y = r.randrange(W), r.randrange(H)
+        dx, dy = r.choice([(1, 0), (-1, 0), (0, 1), (0, -1)])
+        for _step in range(r.randint(6, 40)):
+            nx, ny = x + dx, y + dy
+            if not (0 <= nx < W and 0 <= ny < H) or r.random() < 0.25:
+                g[y][x] = "+"
+                dx, dy = r.choice([(1, 0), (-1, 0), (0, 1), (0, -1)])
+                continue
+            if g[y][x] == " ":
+                g[y][x] = "-" if dx else "|"
+            x, y = nx, ny
+    return "\n".join("".join(row).rstrip() for row in g)
